@@ -11,7 +11,10 @@ HARNESS_BUILD_FLAGS = {}
 
 
 def run_coqcases(chk, pid, runner, tier, seed, workdir, log, only_key):
-    """Go harness writes cases.v / cases.json / stats.json; Coq evaluates verdicts."""
+    """Go harness writes cases.v / cases.json / stats.json; Coq evaluates verdicts.
+    With runner["shards"] = N the harness is started N times in parallel (-shard i -nshards N: each process
+    executes every N-th case of the same deterministic generation) and the N case files are evaluated in parallel."""
+    import concurrent.futures as cf
     name = runner["harness"]
     exe, hook_mode = chk.go_build(name, log)
     out = os.path.join(workdir, name)
@@ -21,21 +24,47 @@ def run_coqcases(chk, pid, runner, tier, seed, workdir, log, only_key):
                                 "detail": "harness does not build against the current tree: " + log[-1][2][-1500:],
                                 "signature": "harness-build", "found_failing_input": False})
         return res
-    cmd = [exe, "-seed", str(seed), "-tier", tier, "-out", out] + runner.get("args", [])
-    r = chk.run(cmd, cwd=workdir, timeout=runner.get("timeout", 1800))
-    log.append(("harness " + name, r.returncode, (r.stdout[-1000:] + r.stderr[-3000:])))
-    if r.returncode != 0:
-        res["failures"].append({"kind": "correspondence", "theorem_or_correspondence": runner["corr"],
-                                "detail": "harness crashed: " + r.stderr[-3000:], "signature": "harness-crash:" + r.stderr[-300:],
-                                "found_failing_input": True})
-        return res
-    verdicts, stats = chk.eval_cases(out, log)
-    cases = json.load(open(os.path.join(out, "cases.json")))
-    res.update({"evaluations": stats["evaluations"], "distinct_nontrivial": stats["distinct_nontrivial"],
-                "histogram": stats["histogram"], "rule": runner.get("rule", "") + " Scope this run: " + str(stats.get("scope", "")),
+    nsh = int(runner.get("shards", 1))
+    outs = [out if nsh == 1 else os.path.join(out, "shard%d" % i) for i in range(nsh)]
+
+    def launch(i):
+        cmd = [exe, "-seed", str(seed), "-tier", tier, "-out", outs[i]] + runner.get("args", [])
+        if nsh > 1:
+            cmd += ["-shard", str(i), "-nshards", str(nsh)]
+        return chk.run(cmd, cwd=workdir, timeout=runner.get("timeout", 1800))
+
+    with cf.ThreadPoolExecutor(max_workers=nsh) as ex:
+        rs = list(ex.map(launch, range(nsh)))
+    for r in rs:
+        log.append(("harness " + name, r.returncode, (r.stdout[-1000:] + r.stderr[-3000:])))
+        if r.returncode != 0:
+            res["failures"].append({"kind": "correspondence", "theorem_or_correspondence": runner["corr"],
+                                    "detail": "harness crashed: " + r.stderr[-3000:], "signature": "harness-crash:" + r.stderr[-300:],
+                                    "found_failing_input": True})
+            return res
+    with cf.ThreadPoolExecutor(max_workers=nsh) as ex:
+        evs = list(ex.map(lambda o: chk.eval_cases(o, log), outs))
+    cases, verdicts, hist, extra_stats = [], [], {}, {}
+    eval_failed = False
+    for o, (vd, stats) in zip(outs, evs):
+        cs = json.load(open(os.path.join(o, "cases.json")))
+        base = len(cases)
+        cases += cs
+        if vd is None:
+            eval_failed = True
+        else:
+            verdicts += [(base + i, v) for (i, v) in vd]
+        for k, v in stats["histogram"].items():
+            hist[k] = hist.get(k, 0) + v
+        for k, v in stats.items():
+            if k not in ("histogram", "evaluations", "distinct", "distinct_nontrivial", "chunk", "chunks"):
+                extra_stats[k] = v
+    nontrivial = len({c["key"] for c in cases if not c.get("trivial")})
+    res.update({"evaluations": len(cases), "distinct_nontrivial": nontrivial,
+                "histogram": hist, "rule": runner.get("rule", "") + " Scope this run: " + str(extra_stats.get("scope", "")),
                 "samples": [c["desc"] for c in cases[:: max(1, len(cases) // 4)][:4]],
-                "extra": {k: v for k, v in stats.items() if k not in ("histogram", "evaluations", "distinct", "distinct_nontrivial", "chunk", "chunks", "scope")}})
-    if verdicts is None:
+                "extra": {k: v for k, v in extra_stats.items() if k != "scope"}})
+    if eval_failed:
         res["failures"].append({"kind": "correspondence", "theorem_or_correspondence": runner["corr"],
                                 "detail": "coqc could not evaluate the cases: " + log[-1][2][-1500:],
                                 "signature": "cases-eval", "found_failing_input": False})
